@@ -106,7 +106,7 @@ class QuadProblem(Problem):
         if self.record is not None:
             self.record(what, np.array(x, dtype=float))
 
-    def _sparse(self, M):
+    def _sparse(self, M, which="J"):
         M = np.atleast_2d(M)
         if self.explicit_zeros:
             r, c = np.indices(M.shape)
@@ -119,8 +119,10 @@ class QuadProblem(Problem):
             if self.fmt == "coo":
                 return S
         if self.fmt == "alt":        # a different storage format on every call (same matrix, other entry order)
-            self._alt = getattr(self, "_alt", 0) + 1
-            return S.asformat(["csr", "csc", "coo"][self._alt % 3])
+            cnt = getattr(self, "_alt", None) or {}
+            cnt[which] = cnt.get(which, 0) + 1          # each callback cycles through the formats on its own
+            self._alt = cnt
+            return S.asformat(["csr", "csc", "coo"][cnt[which] % 3])
         return S.asformat(self.fmt)
 
     def _ret(self, key, x, y, make):
@@ -184,5 +186,5 @@ class QuadProblem(Problem):
             H = self.P.copy()
             for i, a in enumerate(self.A):
                 H += y[i] * a
-            return self._sparse(H)
+            return self._sparse(H, "H")
         return self._ret("H", x, y, make)
